@@ -59,6 +59,36 @@ CHECKS = {
         note=TB_COMMON + "series.shape[0] and series.sample are uninterpreted; membership of the result in the last type additionally needs C03 (transformers land in target).",
         technique="Coq proof (bridge to a replay spec + induction over the re-validated path) for an arbitrary sampler; oracle on >= 1000-row contaminated series for counter-example search",
     ),
+    "C14": dict(
+        text=("Coq facts, by computation on the relation table REGENERATED from types/*.py on every run (finite table, hence proofs): exactly one identity parent per non-Generic type, "
+              "identity parents lead to Generic, a rank strictly increasing along every declared relation (acyclic), one relation per (source, type), identity relations use default guard/"
+              "transformer, shipped typesets nested and parent-closed. The generated constructor (VisionsTypeset.__init__/build_graph/check_isolates/find_root_node over the NxModel) is "
+              "compared with real visions on parent-closed subsets - ALL 1,180,800 of them in the thorough tier, each under two supply orders - for root, ordered nodes/edges, styles, types, "
+              "warnings; an independent well-formedness oracle judges the implementation. The lifting theorem from the table facts to every subset and order is stated in DESIGN.md and "
+              "not yet mechanised: that part is exhaustive enumeration, not proof."),
+        ref="DESIGN.md section 6 (C14)",
+        note=TB_COMMON + "The general order-independence theorem (GraphWF) is not mechanised yet; all-subsets coverage comes from exhaustive enumeration against the implementation. networkx model (NxModel.v) validated by this correspondence; the view node order of edge_subgraph is not modelled.",
+        technique="Coq computation over the regenerated finite relation table + exhaustive differential enumeration of all parent-closed subsets (extracted generated constructor vs real visions)",
+        category="proof",
+    ),
+    "C13": dict(
+        text=("Coq proof about the GENERATED __add__/__sub__/__iadd__/__isub__/replace/_get_other_type and Type.__add__: each is exactly the constructor applied to the set expression "
+              "(union / difference / substitution) of the operands' types, the in-place forms equal the pure ones, Type + Type builds {Generic, T, U}; operations are pure functions of "
+              "immutable operands in the model. On the implementation: every (typeset, type) single step, typeset-typeset steps, all 26x26 Type + Type and random law instances are "
+              "checked for result sets, untouched operands (snapshots), warnings for dropped relations, root; generated algebra vs real results on parent-closed results."),
+        ref="DESIGN.md section 6 (C13)",
+        note=TB_COMMON + "That the constructor returns exactly the given parent-closed set rests on C14 (exhaustive there, not proved in general). Operand non-mutation is by translation discipline + snapshots.",
+        technique="Coq proof (unfolding of translated methods to constructor applications) + exhaustive single-step oracle and differential test on the implementation",
+    ),
+    "C19": dict(
+        text=("Coq proof about the GENERATED output_graph code: what is handed to pydot is a fresh graph whose nodes are the typeset graph's nodes re-inserted sorted by name and whose "
+              "edges are its edges re-inserted sorted by (source, target) name with their own style; the method exports base_graph iff base_only. pydot/graphviz is an uninterpreted "
+              "function of that ordered input. On the implementation: exports are parsed back and compared with the typeset's graphs, bytes compared across all supply orders for small "
+              "typesets and sampled orders for larger ones; the DOT text handed to graphviz is compared, in order, with the generated model's."),
+        ref="DESIGN.md section 6 (C19)",
+        note=TB_COMMON + "Byte-identity across supply orders follows from the sorted re-insertion when type names are distinct (computed for the shipped table); the permutation-invariance lemma of the sort is not mechanised yet, order independence is established by enumeration on the implementation.",
+        technique="Coq proof (generated export = sorted copy) + parse-back oracle and byte comparison across supply orders",
+    ),
 }
 
 
